@@ -52,6 +52,8 @@ def run(ck: Check, repo: Repo) -> None:
     ck.rule("C07.11", "hand-written checkpoint writers name what they store: an entry `<x>_state_dict` / `<x>_init_dict` is read from self.<x>, and the matching "
                       "hand-written loader puts `<x>_state_dict` into self.<x>")
     _handwritten_writers(ck, repo)
+    from ._c07_r3 import run_r3
+    run_r3(ck, repo)
     _restored_stays(ck, repo)
     _bookkeeping(ck, repo)
     _activation_description(ck, repo)
@@ -82,7 +84,7 @@ def run(ck: Check, repo: Repo) -> None:
     ck.ob("C07.1", load_cp, load_cp.node, reads["load"][0] == reads["load_checkpoint"][0] and reads["load"][1] == reads["load_checkpoint"][1],
           "both loaders read the same per-module and per-optimizer keys", detail=str({k: (sorted(v[0]), sorted(v[1])) for k, v in reads.items()}), construct="loader agreement")
     # writer: covers every evolvable attribute, registry travels with the attributes
-    covers, together, fields = _writer_shape(writer)
+    covers, together, fields = _writer_shape(writer, repo)
     ck.ob("C07.1", writer, writer.node, covers, "every evolvable attribute is saved as optimizer or as module (anything else is an error)",
           construct="writer covers evolvable attributes")
     ck.ob("C07.1", writer, writer.node, together,
@@ -376,38 +378,228 @@ class _Roles:
         return out
 
 
-def _writer_shape(writer: Fn) -> Tuple[bool, bool, bool]:
+def _single(cfg: CFG, at: Node, e: ast.AST) -> Tuple[ast.AST, Node]:
+    """e looked through locals that have exactly one (plain) definition reaching `at`; with the node at which the result is evaluated."""
+    for _ in range(8):
+        if not isinstance(e, ast.Name):
+            break
+        defs = cfg.defs_reaching(at, e.id)
+        v = cfg.value_of_def(defs[0], e.id) if len(defs) == 1 else None
+        if v is None:
+            break
+        e, at = v, defs[0]
+    return e, at
+
+
+def _values_are_attributes(repo: Repo) -> bool:
+    """evolvable_attributes() maps every name it returns to getattr(<agent>, name): its result is a dictionary that is only filled by
+    `<result>[k] = v` with v = getattr(self, k) (or is a dictionary comprehension of that form)."""
+    fn = repo.fn(BASE, "EvolvableAlgorithm.evolvable_attributes")
+    me = fn.named_params[0] if fn.named_params else "self"
+    cfg = CFG(fn.node)
+
+    def own(k: ast.AST, v: ast.AST, at: Optional[Node]) -> bool:
+        v = _single(cfg, at, v)[0] if at is not None else v
+        return isinstance(k, ast.Name) and isinstance(v, ast.Call) and call_name(v) == "getattr" and [dotted(a) for a in v.args] == [me, k.id] and not v.keywords
+
+    rets = [n for n in cfg.live_nodes() if n.kind == "stmt" and isinstance(n.ast, ast.Return)]
+    if not rets:
+        return False
+    for r in rets:
+        e = r.ast.value
+        if isinstance(e, ast.DictComp):
+            if not own(e.key, e.value, None):
+                return False
+            continue
+        if not isinstance(e, ast.Name):
+            return False
+        stores = 0
+        for d in cfg.defs_reaching(r, e.id):
+            v = cfg.value_of_def(d, e.id)
+            if v is not None:  # the container itself: starts empty (or as a comprehension of the same form)
+                if not ((isinstance(v, ast.Dict) and not v.keys) or (isinstance(v, ast.Call) and call_name(v) == "dict" and not v.args and not v.keywords)
+                        or (isinstance(v, ast.DictComp) and own(v.key, v.value, None))):
+                    return False
+                continue
+            t = d.ast.targets[0] if d.kind == "stmt" and isinstance(d.ast, ast.Assign) and len(d.ast.targets) == 1 else None
+            if not (isinstance(t, ast.Subscript) and isinstance(t.value, ast.Name) and t.value.id == e.id and own(t.slice, d.ast.value, d)):
+                return False
+            stores += 1
+        if not stores and not any(isinstance(cfg.value_of_def(d, e.id), ast.DictComp) for d in cfg.defs_reaching(r, e.id)):
+            return False
+    return True
+
+
+class _AttrLoop:
+    """A loop of the writer over ALL evolvable attributes of the agent: `for k in <A>`, `for k in <A>.keys()`, `for k, v in <A>.items()` where <A> is
+    `<agent>.evolvable_attributes()` (no filter argument), directly or through a local that holds it.  `obj(e, at)` says whether expression e, evaluated
+    at CFG node `at`, is the attribute named by the loop key (getattr(<agent>, k), <A>[k], the value variable of an items() loop, or a local that
+    holds one of these on every path); `elem` whether it is an element of that attribute (variable of a loop / comprehension over it)."""
+
+    def __init__(self, cfg: CFG, head: Node, agent: str, key: str, val: Optional[str]):
+        self.cfg, self.head, self.lp, self.agent, self.key, self.val = cfg, head, head.ast, agent, key, val
+        inside = {id(x) for st in self.lp.body for x in ast.walk(st)}
+        self.body = {n.id for n in cfg.live_nodes() if n.stmt is not None and id(n.stmt) in inside}
+
+    @staticmethod
+    def all_attributes(cfg: CFG, at: Node, e: ast.AST, agent: str) -> bool:
+        e = _single(cfg, at, e)[0]
+        return isinstance(e, ast.Call) and dotted(e.func) == f"{agent}.evolvable_attributes" and not e.args and not e.keywords
+
+    @classmethod
+    def find(cls, cfg: CFG, agent: str, items_ok: bool) -> List["_AttrLoop"]:
+        out = []
+        for n in cfg.live_nodes():
+            if n.kind != "for" or not isinstance(n.ast, ast.For):
+                continue
+            it, at = _single(cfg, n, n.ast.iter)
+            view = None
+            if isinstance(it, ast.Call) and isinstance(it.func, ast.Attribute) and it.func.attr in ("items", "keys") and not it.args and not it.keywords:
+                view, it = it.func.attr, it.func.value
+            if not cls.all_attributes(cfg, at, it, agent):
+                continue
+            t = n.ast.target
+            if view == "items":
+                if isinstance(t, ast.Tuple) and len(t.elts) == 2 and all(isinstance(x, ast.Name) for x in t.elts) and t.elts[0].id != t.elts[1].id:
+                    out.append(cls(cfg, n, agent, t.elts[0].id, t.elts[1].id if items_ok else None))
+            elif isinstance(t, ast.Name):
+                out.append(cls(cfg, n, agent, t.id, None))
+        return out
+
+    def key_at(self, e: ast.AST, at: Node) -> bool:
+        """e is the loop key of the current iteration."""
+        return isinstance(e, ast.Name) and e.id == self.key and [d.id for d in self.cfg.defs_reaching(at, e.id)] == [self.head.id]
+
+    def obj(self, e: ast.AST, at: Node, depth: int = 0) -> bool:
+        if depth > 8:
+            return False
+        if isinstance(e, ast.Call) and call_name(e) == "getattr" and len(e.args) == 2 and not e.keywords and dotted(e.args[0]) == self.agent and self.key_at(e.args[1], at):
+            return True
+        if isinstance(e, ast.Subscript) and self.key_at(e.slice, at) and self.all_attributes(self.cfg, at, e.value, self.agent):
+            return True
+        if isinstance(e, ast.Name):
+            defs = self.cfg.defs_reaching(at, e.id)
+            for d in defs:
+                if d is self.head and e.id == self.val:
+                    continue
+                v = self.cfg.value_of_def(d, e.id)
+                if v is None or not self.obj(v, d, depth + 1):
+                    return False
+            return bool(defs)
+        return False
+
+    def elem(self, e: ast.AST, at: Node, env: Set[str]) -> bool:
+        if not isinstance(e, ast.Name):
+            return False
+        if e.id in env:
+            return True
+        defs = self.cfg.defs_reaching(at, e.id)
+        return bool(defs) and all(d.kind == "for" and isinstance(d.ast.target, ast.Name) and d.ast.target.id == e.id and self.obj(d.ast.iter, d) for d in defs)
+
+    def owners(self, v: ast.AST, at: Node, what: str, env: Set[str], seen: Set[Tuple[int, str]]) -> List[bool]:
+        """For every read of `.state_dict()` / `.init_dict` that flows into expression v (through locals, comprehensions, lists filled by append in a loop):
+        is it taken from the attribute itself / from one of its elements?"""
+        out: List[bool] = []
+        if isinstance(v, ast.Name):
+            if v.id in env or not isinstance(v.ctx, ast.Load):
+                return out
+            for d in self.cfg.defs_reaching(at, v.id):
+                if (d.id, v.id) in seen:
+                    continue
+                seen.add((d.id, v.id))
+                val = self.cfg.value_of_def(d, v.id)
+                if val is not None:
+                    out += self.owners(val, d, what, set(), seen)
+                elif d.kind == "stmt" and isinstance(d.ast, ast.Expr) and isinstance(d.ast.value, ast.Call):  # weak update: <v>.append(x) / .extend(xs) / .update(...)
+                    for a in list(d.ast.value.args) + [k.value for k in d.ast.value.keywords]:
+                        out += self.owners(a, d, what, set(), seen)
+            return out
+        if isinstance(v, (ast.ListComp, ast.SetComp, ast.GeneratorExp, ast.DictComp)):
+            env = set(env)
+            for g in v.generators:
+                out += self.owners(g.iter, at, what, env, seen)
+                bound = {x.id for x in ast.walk(g.target) if isinstance(x, ast.Name)}
+                env = (env | bound) if isinstance(g.target, ast.Name) and self.obj(g.iter, at) else (env - bound)
+                for c in g.ifs:
+                    out += self.owners(c, at, what, env, seen)
+            for e in ([v.key, v.value] if isinstance(v, ast.DictComp) else [v.elt]):
+                out += self.owners(e, at, what, env, seen)
+            return out
+        recv = None
+        if what == "state_dict" and isinstance(v, ast.Call) and isinstance(v.func, ast.Attribute) and v.func.attr == what:
+            recv, rest = v.func.value, list(v.args) + [k.value for k in v.keywords]
+        elif what == "init_dict" and isinstance(v, ast.Attribute) and v.attr == what:
+            recv, rest = v.value, []
+        if recv is not None:
+            out.append(self.elem(recv, at, env) or self.obj(recv, at))
+            for a in rest:
+                out += self.owners(a, at, what, env, seen)
+            return out
+        for c in ast.iter_child_nodes(v):
+            out += self.owners(c, at, what, env, seen)
+        return out
+
+    def entries(self) -> List[Tuple[str, ast.AST, Node]]:
+        """(suffix, value, node) of the dictionary entries f"{<key>}<suffix>": value written inside the loop."""
+        out = []
+        for d in ast.walk(self.lp):
+            if not isinstance(d, ast.Dict):
+                continue
+            at = self.cfg.node_of(d)
+            for k, v in zip(d.keys, d.values):
+                if at is not None and k is not None and _fsuffix(k) is not None and self.key_at(k.values[0].value, at):
+                    out.append((_fsuffix(k), v, at))
+        return out
+
+    def saves(self, n: Node) -> bool:
+        """node n stores entries named after the loop key under "modules" / "optimizers" of some dictionary."""
+        def kind(e: ast.AST) -> bool:
+            return isinstance(e, ast.Subscript) and const_value(e.slice) in ("modules", "optimizers")
+        for x in n.walk():
+            if isinstance(x, ast.Call) and isinstance(x.func, ast.Attribute) and x.func.attr == "update" and kind(x.func.value) and x.args and isinstance(x.args[0], ast.Dict) \
+                    and any(k is not None and _fsuffix(k) is not None and self.key_at(k.values[0].value, n) for k in x.args[0].keys):
+                return True
+            if isinstance(x, ast.Assign) and any(isinstance(t, ast.Subscript) and kind(t.value) and _fsuffix(t.slice) is not None and self.key_at(t.slice.values[0].value, n)
+                                                 for t in x.targets):
+                return True
+        return False
+
+    def unsaved_path(self) -> Optional[List[Node]]:
+        """a path through the loop body (one iteration, from the loop head back to it) on which nothing is saved; leaving by an exception does not count."""
+        cfg = self.cfg
+        avoid = {n.id for n in cfg.live_nodes() if n is not self.head and (n.id not in self.body or self.saves(n))}
+        return cfg.path_avoiding(self.head, {self.head.id}, avoid)
+
+
+def _writer_shape(writer: Fn, repo: Repo) -> Tuple[bool, bool, bool]:
     """get_checkpoint_dict: (every evolvable attribute handled or TypeError, attributes + network info in one dict,
     module entries are the module's own init_dict / state_dict())."""
     node = writer.node
     agent = writer.named_params[0] if writer.named_params else "agent"
     binds = _bindings(node)
-    loops = [n for n in walk_no_nested(node) if isinstance(n, ast.For) and isinstance(n.target, ast.Name) and isinstance(n.iter, ast.Call)
-             and dotted(n.iter.func) == f"{agent}.evolvable_attributes" and not n.iter.args and not n.iter.keywords]
+    cfg = CFG(node)
+    loops = _AttrLoop.find(cfg, agent, _values_are_attributes(repo))
 
     def raises_type_error(lp: ast.For) -> bool:
         return any(isinstance(x, ast.Raise) and x.exc is not None and dotted(x.exc.func if isinstance(x.exc, ast.Call) else x.exc) == "TypeError" for x in ast.walk(lp))
 
-    covers = any(raises_type_error(lp) for lp in loops)
+    # every iteration saves the attribute (as optimizer or as module) or ends in the TypeError
+    covers = any(raises_type_error(L.lp) and L.unsaved_path() is None for L in loops)
     # the dictionary of plain attributes and the network-info dictionary that is filled with .update()
     plain = {n for n, v in binds if isinstance(v, ast.Call) and call_name(v) == "EvolvableAlgorithm.inspect_attributes" and [dotted(a) for a in v.args] == [agent] and not v.keywords}
     info = {c.func.value.value.id for c in calls_in(node) if last_attr(c) == "update" and isinstance(c.func, ast.Attribute) and isinstance(c.func.value, ast.Subscript)
             and isinstance(c.func.value.value, ast.Name) and const_value(c.func.value.slice) in ("modules", "optimizers")}
     together = any(isinstance(n, ast.Assign) and isinstance(n.value, ast.Name) and n.value.id in info and const_value(_key_read(n.targets[0], plain)) == "network_info"
                    for n in walk_no_nested(node))
-    # entries f"{<loop variable>}_suffix": value, <obj> = getattr(agent, <loop variable>)
+    # entries f"{<loop key>}_state_dict" / f"{<loop key>}_init_dict": whatever state_dict() / init_dict flows into the stored value is read from the
+    # attribute named by the key (or, for a list of modules, from its elements) and from nothing else
     fields = False
-    for lp in loops:
-        var = lp.target.id
-        objs = {n for n, v in _bindings(lp) if isinstance(v, ast.Call) and call_name(v) == "getattr" and [dotted(a) for a in v.args] == [agent, var]}
-        entries = [(k, v) for d in ast.walk(lp) if isinstance(d, ast.Dict) for k, v in zip(d.keys, d.values)
-                   if k is not None and _fsuffix(k) is not None and dotted(k.values[0].value) == var]
-        own_state = any(_fsuffix(k) == "_state_dict" and isinstance(v, ast.Call) and isinstance(v.func, ast.Attribute) and v.func.attr == "state_dict" and not v.args
-                        and isinstance(v.func.value, ast.Name) and v.func.value.id in objs for k, v in entries)
-        init_names = {v.id for k, v in entries if _fsuffix(k) == "_init_dict" and isinstance(v, ast.Name)}
-        own_init = any((n in init_names or _fsuffix(n) == "_init_dict") and isinstance(v, ast.Attribute) and v.attr == "init_dict" and isinstance(v.value, ast.Name) and v.value.id in objs
-                       for n, v in _bindings(lp) + entries)
-        fields = fields or (own_state and own_init)
+    for L in loops:
+        ok = {}
+        for suffix, what in (("_state_dict", "state_dict"), ("_init_dict", "init_dict")):
+            srcs = [L.owners(v, at, what, set(), set()) for s, v, at in L.entries() if s == suffix]
+            ok[what] = bool(srcs) and all(o and all(o) for o in srcs)
+        fields = fields or (ok["state_dict"] and ok["init_dict"])
     return covers, together, fields
 
 
@@ -685,7 +877,36 @@ def _wrapper(ck: Check, repo: Repo) -> None:
 
 _BF = "agilerl/algorithms/core/base.py"
 _WF = "agilerl/wrappers/agent.py"
+# get_checkpoint_dict: the loop header and the module branch as written today, and the same loop in one-pass form (items() loop, early `continue`
+# for optimizers, flat if / elif / else) — the second is what a tidy-up of the function produces
+_W_HEAD = "    for attr in agent.evolvable_attributes():\n        obj: EvolvableAttributeType = getattr(agent, attr)\n"
+_W_TAIL = ("                    f\"{attr}_multiagent\": obj.multiagent,\n                }\n            )\n"
+           "        elif isinstance(obj, (OptimizedModule, EvolvableModule)) or is_module_list(obj):\n            if is_module_list(obj):\n                obj_list = obj\n"
+           "                obj_cls = [\n                    (\n                        m._orig_mod.__class__\n                        if isinstance(m, OptimizedModule)\n"
+           "                        else m.__class__\n                    )\n                    for m in obj_list\n                ]\n"
+           "                init_dict = [m.init_dict for m in obj_list]\n                state_dict = [remove_compile_prefix(m.state_dict()) for m in obj_list]\n"
+           "            else:\n                obj_list = [obj]\n                obj_cls = (\n                    obj._orig_mod.__class__\n"
+           "                    if isinstance(obj, OptimizedModule)\n                    else obj.__class__\n                )\n"
+           "                init_dict = obj.init_dict\n                state_dict = remove_compile_prefix(obj.state_dict())\n\n"
+           "            network_info[\"modules\"].update(\n                {\n                    f\"{attr}_cls\": obj_cls,\n                    f\"{attr}_init_dict\": init_dict,\n"
+           "                    f\"{attr}_state_dict\": state_dict,\n                }\n            )\n        else:\n            raise TypeError(\n                f\"Something went wrong. Identified '{attr}' as an evolvable module \"\n                f\"when it is of type {type(obj)}.\"\n            )\n")
+_W_FLAT = ("                    f\"{attr}_multiagent\": obj.multiagent,\n                }\n            )\n            continue\n\n"
+           "        if is_module_list(obj):\n            obj_cls = [m._orig_mod.__class__ if isinstance(m, OptimizedModule) else m.__class__ for m in obj]\n"
+           "            init_dict = [m.init_dict for m in obj]\n            state_dict = [remove_compile_prefix(m.state_dict()) for m in obj]\n"
+           "        elif isinstance(obj, (OptimizedModule, EvolvableModule)):\n"
+           "            obj_cls = obj._orig_mod.__class__ if isinstance(obj, OptimizedModule) else obj.__class__\n"
+           "            init_dict = obj.init_dict\n            state_dict = remove_compile_prefix(obj.state_dict())\n%s"
+           "        else:\n            raise TypeError(\n                f\"Something went wrong. Identified '{attr}' as an evolvable module \"\n                f\"when it is of type {type(obj)}.\"\n            )\n\n"
+           "        network_info[\"modules\"].update(\n            {\n                f\"{attr}_cls\": obj_cls,\n                f\"{attr}_init_dict\": init_dict,\n"
+           "                f\"{attr}_state_dict\": state_dict,\n            }\n        )\n")
+_W_UPDATE = ("            network_info[\"modules\"].update(\n                {\n                    f\"{attr}_cls\": obj_cls,\n                    f\"{attr}_init_dict\": init_dict,\n"
+             "                    f\"{attr}_state_dict\": state_dict,\n                }\n            )\n")
 VARIANTS = [
+    ("loader-keeps-networks-that-fit", "agilerl/algorithms/core/base.py", "        network_names = network_info[\"network_names\"]\n        for name in network_names:\n            net_dict = {\n                k: v for k, v in network_info[\"modules\"].items() if k.startswith(name)\n            }\n\n            module_cls = net_dict[f\"{name}_cls\"]",
+     "        network_names = network_info[\"network_names\"]\n        rebuild = not all(hasattr(self, name) for name in network_names)\n        for name in network_names if rebuild else []:\n            net_dict = {\n                k: v for k, v in network_info[\"modules\"].items() if k.startswith(name)\n            }\n\n            module_cls = net_dict[f\"{name}_cls\"]", "fire", "C07.12"),
+    ("registry-eq-compares-hp-config", "agilerl/algorithms/core/registry.py", "        return self.groups == other.groups and self.optimizers == other.optimizers", "        return self.groups == other.groups and self.optimizers == other.optimizers and self.hp_config.config == other.hp_config.config", "fire", "C07.13"),
+    ("registry-eq-compares-hooks-ok", "agilerl/algorithms/core/registry.py", "        return self.groups == other.groups and self.optimizers == other.optimizers", "        return self.groups == other.groups and self.optimizers == other.optimizers and self.hooks == other.hooks", "silent", None),
+
     ("ilql-q2-entry-stores-q", "agilerl/algorithms/ilql.py", "                \"q2_state_dict\": self.q2.state_dict() if self.double_q else None,", "                \"q2_state_dict\": self.q.state_dict() if self.double_q else None,", "fire", "C07.11"),
     ("load-puts-networks-in-eval-mode", _BF, "            elif state_dict:\n                loaded_module.load_state_dict(state_dict)\n\n        # Reconstruct optimizers in algorithm", "            elif state_dict:\n                loaded_module.load_state_dict(state_dict)\n                loaded_module.eval()\n\n        # Reconstruct optimizers in algorithm", "fire", "C07.2"),
     ("noisy-buffers-non-persistent", "agilerl/modules/custom_components.py", "        self.register_buffer(\"bias_epsilon\", torch.empty(out_features, device=device))", "        self.register_buffer(\"bias_epsilon\", torch.empty(out_features, device=device), persistent=False)", "fire", "C07.10"),
@@ -708,4 +929,18 @@ VARIANTS = [
      "            module_cls = list(net_dict.values())[0]\n            init_dict = net_dict[f\"{name}_init_dict\"]\n            if isinstance(module_cls, list):\n                loaded_modules = []", "fire", "C07"),
     ("wrapper-attrs-not-restored", _WF, "        for key, value in checkpoint[\"wrapper_attrs\"].items():\n            setattr(self, key, value)\n", "", "fire", "C07.1"),
     ("state-before-rebuild", _BF, "                loaded_module: EvolvableModule = module_cls(**init_dict)\n                setattr(self, name, loaded_module)\n\n        # Apply mutation hooks", "                pass\n\n        # Apply mutation hooks", "fire", "C07.2"),
+    # get_checkpoint_dict in other, equivalent forms (C07.1 "writer covers evolvable attributes" / "writer module fields")
+    ("writer-items-loop-ok", _BF, _W_HEAD, "    for attr, obj in agent.evolvable_attributes().items():\n", "silent", None),
+    ("writer-items-loop-networks-only", _BF, _W_HEAD, "    for attr, obj in agent.evolvable_attributes(networks_only=True).items():\n", "fire", "C07.1"),
+    ("writer-attributes-held-in-a-local-ok", _BF, _W_HEAD, "    found = agent.evolvable_attributes()\n    for attr in found.keys():\n        obj = found[attr]\n", "silent", None),
+    ("writer-one-pass-guard-clauses-ok", _BF, _W_TAIL, _W_FLAT % "", "silent", None),
+    ("writer-one-pass-single-modules-skipped", _BF, _W_TAIL, _W_FLAT % "            continue\n", "fire", "C07.1"),
+    ("writer-saves-module-lists-only", _BF, _W_UPDATE, "            if is_module_list(obj):\n" + _W_UPDATE.replace("\n    ", "\n        ").replace("            network_info", "                network_info", 1), "fire", "C07.1"),
+    ("writer-init-dicts-collected-by-loop-ok", _BF, "                init_dict = [m.init_dict for m in obj_list]\n",
+     "                init_dict = []\n                for m in obj_list:\n                    init_dict.append(m.init_dict)\n", "silent", None),
+    ("writer-init-dict-of-first-element", _BF, "                init_dict = [m.init_dict for m in obj_list]\n", "                init_dict = [obj_list[0].init_dict for m in obj_list]\n", "fire", "C07.1"),
+    ("writer-module-weights-of-another-network", _BF, "                state_dict = remove_compile_prefix(obj.state_dict())\n",
+     "                state_dict = remove_compile_prefix(agent.actor.state_dict())\n", "fire", "C07.1"),
+    ("writer-state-dict-through-temporary-ok", _BF, "                state_dict = remove_compile_prefix(obj.state_dict())\n",
+     "                module = obj\n                raw = module.state_dict()\n                state_dict = remove_compile_prefix(raw)\n", "silent", None),
 ]
